@@ -1,3 +1,4 @@
+import Clover.Generated.Facts
 import Clover.Props.C13
 import Clover.Props.C14
 import Clover.Spec.Render
@@ -83,3 +84,33 @@ theorem no_residue_of_missing_collection (s : Spec.State) (σ : KVS) (hw : WF s)
 example : OpOK (.createCollection [0x61, 0x2E, 0x62]) := by simp [OpOK, Keys.Clean, Keys.semi]
 
 end CV.Props.C06
+
+-- SOURCE-TEXT-BEGIN (generated by tools/mk_source_theorems.py; do not edit by hand)
+namespace CV.Props.C06
+
+/-- (facts, regenerated from the source on every run) **The source text the model transcribes is the text of the
+    current source**: the bodies (comments and layout removed) of the 17 functions the model behind C06 was written from and
+    validated against.  Any edit of one of them breaks this theorem at build time; the check then searches with the
+    property's own oracles for a failing input, and reports `no-failing-input-found` if it finds none: the model then
+    has to be re-validated against the new text (and this block regenerated). -/
+theorem source_decision_logic : CV.Facts.logicC06 = [
+  "clover.DB.DeleteById: { tx, err := db.store.Begin(true) if err != nil { return err } defer tx.Rollback() meta, err := db.getCollectionMeta(collection, tx) if err != nil { return err } indexes := db.getIndexes(tx, collection, meta) value, err := tx.Get([]byte(getDocumentKey(collection, id))) if err != nil { return err } if value == nil { return nil } if err := db.getDocAndDeleteFromIndexes(tx, indexes, collection, id); err != nil { return err } if err := tx.Delete([]byte(getDocumentKey(collection, id))); err != nil { return err } meta.Size-- if err := db.saveCollectionMetadata(collection, meta, tx); err != nil { return err } return tx.Commit() }", 
+  "clover.DB.DropIndex: { txn, err := db.store.Begin(true) if err != nil { return err } defer txn.Rollback() meta, err := db.getCollectionMeta(collection, txn) if err != nil { return err } j := -1 for i := 0; i < len(meta.Indexes); i++ { if meta.Indexes[i].Field == field { j = i } } if j < 0 { return ErrIndexNotExist } idxType := meta.Indexes[j].Type meta.Indexes[j] = meta.Indexes[0] meta.Indexes = meta.Indexes[1:] idx := index.CreateIndex(collection, field, idxType, txn) if err := idx.Drop(); err != nil { return err } if err := db.saveCollectionMetadata(collection, meta, txn); err != nil { return err } return txn.Commit() }", 
+  "clover.DB.UpdateById: { tx, err := db.store.Begin(true) if err != nil { return err } defer tx.Rollback() meta, err := db.getCollectionMeta(collectionName, tx) if err != nil { return err } indexes := db.getIndexes(tx, collectionName, meta) docKey := getDocumentKey(collectionName, docId) value, err := tx.Get([]byte(docKey)) if err != nil { return err } if value == nil { return ErrDocumentNotExist } doc, err := d.Decode(value) if err != nil { return err } updatedDoc := updater(doc.Copy()) if updatedDoc == nil { return errNilDocument } if updatedDoc.ObjectId() != docId { return errIdChanged } if err := db.updateIndexesOnDocUpdate(tx, indexes, doc, updatedDoc); err != nil { return err } if err := saveDocument(updatedDoc, []byte(docKey), tx); err != nil { return err } return tx.Commit() }", 
+  "clover.DB.addDocToIndexes: { for _, idx := range indexes { fieldVal := doc.Get(idx.Field()) err := idx.Add(doc.ObjectId(), fieldVal, doc.TTL()) if err != nil { return err } } return nil }", 
+  "clover.DB.createIndex: { tx, err := db.store.Begin(true) if err != nil { return err } defer tx.Rollback() meta, err := db.getCollectionMeta(collection, tx) if err != nil { return err } for i := 0; i < len(meta.Indexes); i++ { if meta.Indexes[i].Field == field { return ErrIndexExist } } if meta.Indexes == nil { meta.Indexes = make([]index.Info, 0) } meta.Indexes = append(meta.Indexes, index.Info{Field: field, Type: indexType}) idx := index.CreateIndex(collection, field, indexType, tx) err = db.iterateDocs(tx, query.NewQuery(collection), func(doc *d.Document) error { value := doc.Get(field) return idx.Add(doc.ObjectId(), value, doc.TTL()) }) if err != nil { return err } if err := db.saveCollectionMetadata(collection, meta, tx); err != nil { return err } return tx.Commit() }", 
+  "clover.DB.deleteAll: { return db.replaceDocs(tx, query.NewQuery(collName), func(_ *d.Document) *d.Document { return nil }) }", 
+  "clover.DB.deleteDocFromIndexes: { for _, idx := range indexes { value := doc.Get(idx.Field()) if err := idx.Remove(doc.ObjectId(), value); err != nil { return err } } return nil }", 
+  "clover.DB.getDocAndDeleteFromIndexes: { if len(indexes) == 0 { return nil } doc, err := getDocumentById(collection, docId, tx) if err != nil { return err } if doc == nil { return nil } for _, idx := range indexes { value := doc.Get(idx.Field()) if err := idx.Remove(doc.ObjectId(), value); err != nil { return err } } return nil }", 
+  "clover.DB.getIndexes: { indexes := make([]index.Index, 0) for _, info := range meta.Indexes { indexes = append(indexes, index.CreateIndex(collection, info.Field, info.Type, tx)) } return indexes }", 
+  "clover.DB.insertDocs: { meta, err := db.getCollectionMeta(collectionName, tx) if err != nil { return err } indexes := db.getIndexes(tx, collectionName, meta) for _, doc := range docs { if err := db.addDocToIndexes(tx, indexes, doc); err != nil { return err } key := []byte(getDocumentKey(collectionName, doc.ObjectId())) value, err := tx.Get(key) if err != nil { return err } if value != nil { return ErrDuplicateKey } if err := saveDocument(doc, key, tx); err != nil { return err } } meta.Size += len(docs) return db.saveCollectionMetadata(collectionName, meta, tx) }", 
+  "clover.DB.replaceDocs: { meta, err := db.getCollectionMeta(q.Collection(), tx) if err != nil { return err } indexes := db.getIndexes(tx, q.Collection(), meta) docs := make([]*d.Document, 0) err = db.iterateDocs(tx, q, func(doc *d.Document) error { docs = append(docs, doc) return nil }) if err != nil { return err } deletedDocs := 0 for _, doc := range docs { docKey := []byte(getDocumentKey(q.Collection(), doc.ObjectId())) newDoc := updater(doc.Copy()) if newDoc != nil && newDoc.ObjectId() != doc.ObjectId() { return errIdChanged } if err := db.updateIndexesOnDocUpdate(tx, indexes, doc, newDoc); err != nil { return err } if newDoc == nil { deletedDocs++ if err := tx.Delete(docKey); err != nil { return err } continue } if err := saveDocument(newDoc, docKey, tx); err != nil { return err } } if deletedDocs > 0 { meta.Size -= deletedDocs if err := db.saveCollectionMetadata(q.Collection(), meta, tx); err != nil { return err } } return nil }", 
+  "clover.DB.saveCollectionMetadata: { rawMeta, err := json.Marshal(meta) if err != nil { return err } return tx.Set([]byte(getCollectionKey(collection)), rawMeta) }", 
+  "clover.DB.updateIndexesOnDocUpdate: { if err := db.deleteDocFromIndexes(indexes, oldDoc); err != nil { return err } if newDoc != nil { if err := db.addDocToIndexes(tx, indexes, newDoc); err != nil { return err } } return nil }", 
+  "index.rangeIndex.Add: { encodedKey, err := idx.encodeValueAndId(v, docId) if err != nil { return err } return idx.tx.Set(encodedKey, nil) }", 
+  "index.rangeIndex.Drop: { cursor, err := idx.tx.Cursor(true) if err != nil { return err } defer cursor.Close() prefix := idx.getKeyPrefix() cursor.Seek(prefix) for ; cursor.Valid(); cursor.Next() { item, err := cursor.Item() if err != nil { return err } if !bytes.HasPrefix(item.Key, prefix) { return nil } if err := idx.tx.Delete(item.Key); err != nil { return err } } return nil }", 
+  "index.rangeIndex.Remove: { encodedKey, err := idx.encodeValueAndId(value, docId) if err != nil { return err } return idx.tx.Delete(encodedKey) }", 
+  "index.rangeIndex.encodeValueAndId: { encodedKey, err := idx.getKey(value) if err != nil { return nil, err } encodedKey = append(encodedKey, []byte(docId)...) return encodedKey, nil }"] := by rfl
+
+end CV.Props.C06
+-- SOURCE-TEXT-END
